@@ -391,16 +391,27 @@ Apply(st, e) ==
             ELSE R(st, <<>>, "AlreadyFreed")
       [] e.op = "c_getn" -> IF o.alive THEN R(st, One(Msg("/c_getn", <<I(id), I(e.n[1])>>)), "") ELSE R(st, <<>>, "AlreadyFreed")
       \* ---- bind
+      \* ---- `yield from server.sync()`: RT: a bundle (time None) with '/sync id', then wait for '/synced id';
+      \*      NRT: nothing at all (commands complete in logical time).  The id is an observation.
+      [] e.op = "sync" -> R(st, IF st.cfg.rt = 1 THEN <<Ev("bundle", NOTIME, <<Msg("/sync", <<I(new)>>)>>)>> ELSE <<>>, "")
       [] e.op = "bind_enter" -> R([st EXCEPT !.inbind = TRUE, !.pending = <<>>], <<>>, "")
       [] e.op = "bind_exit" -> R([st EXCEPT !.inbind = FALSE, !.pending = <<>>], <<>>, "")      \* handled in Step
       [] OTHER -> R(st, <<Ev("unknown-op", 0, <<>>)>>, "")
 
 RECURSIVE MsgsOf(_)
 MsgsOf(evs) == IF evs = <<>> THEN <<>> ELSE evs[1].m \o MsgsOf(Tail(evs))
-\* what must be on the wire after API call e, and the next state, bind() included
+\* what must be on the wire after API call e, and the next state, bind() included.
+\* sync() inside a block (RT) sends "the generated bundle so far" - the held-back commands, in issue order, as one
+\* bundle at server latency (nothing if none are held) - and then the '/sync' bundle; the block goes on collecting.
+\* So the commands of a block reach the wire split at the sync points, each exactly once, the '/sync' after the
+\* commands issued before it.  What a sync has flushed is on the wire for good (the server has acknowledged it): a
+\* block that raises later only loses the commands issued after its last sync.
 Step(st, e) ==
     LET r == Apply(st, e) IN
-    IF e.op = "bind_exit"
+    IF e.op = "sync" /\ st.inbind /\ st.cfg.rt = 1 /\ r.exc = ""
+    THEN [st |-> [r.st EXCEPT !.pending = <<>>], exc |-> "",
+          em |-> (IF st.pending = <<>> THEN <<>> ELSE <<Ev("bundle", st.cfg.latency, st.pending)>>) \o r.em]
+    ELSE IF e.op = "bind_exit"
     THEN [st |-> r.st, exc |-> "",
           em |-> IF e.n[1] = 1 \/ st.pending = <<>> THEN <<>> ELSE <<Ev("bundle", st.cfg.latency, st.pending)>>]
     ELSE IF st.inbind /\ e.op # "bind_enter"
@@ -446,8 +457,9 @@ Why(st, e0) ==
     ELSE IF e.op \in {"b_free", "bus_free"} /\ ~st.inbind /\ e.em # x.em THEN "FreeOncePerOwnedId"
     ELSE IF \E m \in ms : ~WellTyped(m) THEN "WellTyped"
     \* (the ids inside a block's bundle were known when the calls were issued; the bundle is compared below)
-    ELSE IF e.op # "bind_exit" /\ ~OnlyKnownIds(x.st, st, ms) THEN "OnlyKnownIds"
-    ELSE IF st.inbind /\ e.op # "bind_exit" /\ e.em # <<>> THEN "BindHoldsBack"
+    ELSE IF e.op \notin {"bind_exit", "sync"} /\ ~OnlyKnownIds(x.st, st, ms) THEN "OnlyKnownIds"
+    ELSE IF e.op = "sync" /\ e.em # x.em THEN (IF st.inbind THEN "BindSplitAtSync" ELSE "Sync")
+    ELSE IF st.inbind /\ e.op \notin {"bind_exit", "sync"} /\ e.em # <<>> THEN "BindHoldsBack"
     ELSE IF e.op = "bind_exit" /\ e.n[1] = 1 /\ e.em # <<>> THEN "BindNothingOnRaise"
     ELSE IF e.op = "bind_exit" /\ e.em # x.em THEN "BindOneBundleInOrder"
     ELSE IF e.op \in (CreationOps \ {"basic"}) /\ ~st.inbind
